@@ -60,24 +60,35 @@ def cubeQuadsNormalCode (v : Nat) : V3 α :=
   | 4 => (quaternion.FromTheta (pi * (n2a 3 / n2a 2)) (V3.Left : V3 α)).Rotate up
   | _ => (quaternion.FromTheta (pi * (n2a 1 / n2a 2)) (V3.Left : V3 α)).Rotate up
 
+/-- circle.go:29-41 `Circle.ToMesh`: rim vertex `k < sides` at angle `angleIncrement * k` in the XZ plane, centre at
+    index `sides`.  PROVED equal to the positions of the loop program extracted from circle.go
+    (`C18.circle_positions_from_source`). -/
+def circlePos (radius : α) (sides k : Nat) : V3 α :=
+  if k = sides then V3.New (n2a 0) (n2a 0) (n2a 0)
+  else V3.New (cos (angleIncrement sides * n2a k) * radius) (n2a 0) (sin (angleIncrement sides * n2a k) * radius)
+
+/-- circle.go:36,41: every circle normal is `(0, 1, 0)` -/
+def circleNormal : V3 α := V3.New (n2a 0) (n2a 1) (n2a 0)
+
 /-- cylinder.go:108-118: the quaternion of the bottom cap -/
 def bottomCapQ : quaternion.Quaternion α := quaternion.FromTheta pi (V3.New (n2a 1) (n2a 0) (n2a 0))
 
-/-- the capped cylinder as the code builds it: like `cylinderPos`, but the bottom cap is the circle of circle.go:29-37
-    rotated by `bottomCapQ` and translated by `(0, -halfHeight, 0)` -/
+/-- the capped cylinder as the code builds it (cylinder.go:100-121): the side vertices of `Cylinder.ToMesh`, then
+    `top.ToMesh().Translate((0, halfHeight, 0))`, then `bottom.ToMesh()` rotated by `bottomCapQ` and translated by
+    `(0, -halfHeight, 0)`; `Translate` is `v.Add(t)` per vertex (mesh.go) -/
 def cylinderPosCode (radius height : α) (sides v : Nat) : V3 α :=
   let hh : α := height / n2a 2
-  let ang (k : Nat) : α := angleIncrement sides * n2a k
-  if v < 3 * sides + 3 then cylinderPos radius height sides v
-  else if v < 4 * sides + 3 then
-    let k := v - (3 * sides + 3)
-    (bottomCapQ.Rotate (V3.New (cos (ang k) * radius) (n2a 0) (sin (ang k) * radius))).Add (V3.New (n2a 0) (-hh) (n2a 0))
-  else (bottomCapQ.Rotate (V3.Zero : V3 α)).Add (V3.New (n2a 0) (-hh) (n2a 0))
+  if v < 2 * sides + 2 then cylinderPos radius height sides v
+  else if v < 3 * sides + 3 then
+    (circlePos radius sides (v - (2 * sides + 2))).Add (V3.New (n2a 0) hh (n2a 0))
+  else (bottomCapQ.Rotate (circlePos radius sides (v - (3 * sides + 3)))).Add (V3.New (n2a 0) (-hh) (n2a 0))
 
-/-- supplied normals as the code builds them: the bottom cap's `(0,1,0)` rotated by `bottomCapQ` -/
+/-- supplied normals as the code builds them: side normals, the top circle's `(0,1,0)`, the bottom circle's `(0,1,0)`
+    rotated by `bottomCapQ` -/
 def cylinderNormalCode (sides v : Nat) : V3 α :=
-  if v < 3 * sides + 3 then cylinderNormal sides v
-  else bottomCapQ.Rotate (V3.New (n2a 0) (n2a 1) (n2a 0))
+  if v < 2 * sides + 2 then cylinderNormal sides v
+  else if v < 3 * sides + 3 then circleNormal
+  else bottomCapQ.Rotate circleNormal
 
 end
 
